@@ -1,4 +1,5 @@
 import BM.Props.C04ugc
+import BM.Props.C07c
 import BM.Props.SrcPin.C04
 import BM.Props.OracleModelC04
 /- Top module of property C04: its theorems (BM.Props.C04ugc) and the statement of which units of /repo's
